@@ -19,7 +19,7 @@ from harness.common import REPO, VERIF, pool_map, rng_for, run_cli, scratch_dir
 from harness.framework import Check
 
 PROP = "C15"
-FLAGS = ["q_shebang_any_ext"]
+FLAGS = ["q_shebang_any_ext", "q_name_exemption_ext_case"]
 HEADER = "From TL Require Import Lib.Base Model.DispatchTypes Gen.DispatchGen Model.Dispatch Model.DispatchRun Actual.DispatchActual.\n"
 LANG_EXT = {"python": ".py", "typescript": ".ts", "javascript": ".js", "rust": ".rs"}
 ALL_LANGS = ["python", "typescript", "javascript", "rust", "java", "go", "unknown"]
@@ -60,7 +60,7 @@ def py_suffix(name: str) -> str:
 
 def spec_class(name: str, data: bytes) -> str:
     suf = py_suffix(name)
-    low = "".join(chr(ord(c) + 32) if "A" <= c <= "Z" else c for c in suf)
+    low = suf.lower()
     if low in SPEC_EXT:
         return SPEC_EXT[low]
     if suf == "" and len(data) > 0:
@@ -104,7 +104,7 @@ HEADS = ["", "", "", "#!/usr/bin/env python3\n", "#!/usr/bin/python\n", "#!/usr/
          "# !/usr/bin/python\n", "#!/usr/bin/env node\n", " #!/usr/bin/python\n", "#!/usr/bin/env PYTHON\n", "#!/opt/py/bin/run\n",
          "#!/usr/bin/env deno run\n", "#!/usr/bin/env ruby\n", "#!/bin/sh\n", "#!/usr/bin/env ts-node\n", "#!/usr/bin/env bpython\n",
          "#!/opt/mypythonista/bin/run\n", "#!/usr/bin/env -S cargo +nightly -Zscript\n", "#!/usr/bin/env rust-script\n"]
-STEMS = ["mod", "widget", "svc_core", "data.v2", "X", "thing.min", "py", "a.py"]
+STEMS = ["mod", "widget", "svc_core", "data.v2", "X", "thing.min", "py", "a.py", "test_mod", "{t}_mod_test", "{t}.test", "{t}.spec", "{t}_test"]
 EXT_MAPPED = [".py", ".js", ".ts", ".tsx", ".jsx", ".java", ".go", ".rs"]
 EXT_UNMAPPED = ["", "", ".txt", ".md", ".sh", ".pyw", ".pyi", ".json", ".c", ".", ".py.bak", ".PY.txt", ".tss", ".p", ".rst", ".yaml.j2", ".rs~"]
 
@@ -258,7 +258,7 @@ def gen_groups(seed: int, n: int):
 
 
 def _fixed_content(kind: str) -> str:
-    pick = {"py": ["deep", "lbyl", "helper", "pipe", "loops"], "ts": ["deep", "loops", "big", "cqs"], "rs": ["deep", "unwrap", "clone", "async"]}[kind]
+    pick = {"py": ["deep", "lbyl", "helper", "pipe", "loops", "strs"], "ts": ["deep", "loops", "big", "cqs", "strs"], "rs": ["deep", "unwrap", "clone", "async"]}[kind]
     return PRELUDE[kind] + "".join(BLOCKS[kind][b].format(n=i, k1=4242, k2=6161) + "\n\n" for i, b in enumerate(pick))
 
 
@@ -315,6 +315,13 @@ def grid_groups(cmds_all):
             out.append({"i": f"grid:{len(out)}", "kind": "py", "stem": me, "ext": "", "data_hex": parts[me].encode().hex(), "base": {}, "pert": {}, "touched": [],
                         "fixed_cmds": ["nesting", "lbyl", "magic-numbers", "improper-logging", "srp"], "subprocess_cmds": [],
                         "project": [[x, parts[x].encode().hex()] for x in combo], "paths_mode": mode})
+    # name-based test-file exemptions under case variants of the extension (and their lower-case counterparts)
+    for stem, ext, kind, cmds in (("test_mod", ".PY", "py", ["method-property", "magic-numbers", "nesting"]), ("test_mod", ".py", "py", ["method-property", "magic-numbers"]),
+                                  ("{t}_mod_test", ".Py", "py", ["magic-numbers", "method-property", "stringly-typed"]), ("{t}_mod_test", ".py", "py", ["magic-numbers", "stringly-typed"]),
+                                  ("{t}.test", ".TS", "ts", ["stringly-typed", "magic-numbers", "srp"]), ("{t}.test", ".ts", "ts", ["stringly-typed", "magic-numbers"]),
+                                  ("{t}.spec", ".Tsx", "ts", ["stringly-typed"]), ("{t}_test", ".tS", "ts", ["stringly-typed", "improper-logging"])):
+        out.append({"i": f"grid:{len(out)}", "kind": kind, "stem": stem, "ext": ext, "data_hex": _fixed_content(kind).encode().hex(), "base": {}, "pert": {},
+                    "touched": [], "fixed_cmds": cmds, "subprocess_cmds": []})
     own = {".py": "py", ".js": "ts", ".ts": "ts", ".tsx": "ts", ".jsx": "ts", ".rs": "rs", ".java": "py", ".go": "rs"}
     other = {"py": "rs", "ts": "py", "rs": "ts"}
     for ext in EXT_MAPPED:
@@ -343,8 +350,30 @@ def corpus_groups():
     return out
 
 
+def _twins(stem: str, ext: str):
+    if "{t}" in stem:     # the twin letter goes in front (names that must END with _test.py, .test.ts, ...)
+        return stem.replace("{t}", "a") + ext, stem.replace("{t}", "b") + ext
+    return stem + "_a" + ext, stem + "_b" + ext
+
+
 def twin_names(g):
-    return g["stem"] + "_a" + g["ext"], g["stem"] + "_b" + g["ext"]
+    return _twins(g["stem"], g["ext"])
+
+
+def _natom(kind, needle, name):
+    return {"NStarts": name.startswith(needle), "NEnds": name.endswith(needle), "NContains": needle in name, "NEq": name == needle}[kind]
+
+
+def exempt_shift(exemptions, name: str) -> list[str]:
+    """rules whose name-based exemption answers differently on the name as spelled and on the name with a lower-cased extension"""
+    suf = py_suffix(name)
+    canon = name[: len(name) - len(suf)] + suf.lower()
+    out = []
+    for rid, _langs, dnf in exemptions:
+        holds = lambda nm: any(all(_natom(k, n, nm) for k, n in conj) for conj in dnf)  # noqa: E731
+        if holds(name) != holds(canon):
+            out.append(rid)
+    return out
 
 
 # ------------------------------------------------------------------ running the implementation
@@ -482,14 +511,21 @@ def run_group(g):
         for lang in sorted(need) + ["python"][: 0 if need else 1]:
             ext = LANG_EXT[lang]
             root = d / ("ref_" + lang)
-            cn = (g["stem"] + "_a" + ext, g["stem"] + "_b" + ext)
+            cn = _twins(g["stem"], ext)
             _write_project(root, cn, data, g["base"])
             out["refs"][lang] = sorted(_norm(v, cn) for v in _reference(root))
             out["ref_failures"] += _drain(flog)
-        if cl == "javascript" and not any(isinstance(v, dict) and ("javascript" in v or "typescript" in v) for v in g["base"].values()):
+        if g.get("raw") and (cl in LANG_EXT):
+            # neutrally named copy: no name-based exemption applies (oracle for the rules whose exemption is extension-case sensitive)
+            root = d / "ref_raw"
+            cn = _twins("neutral", LANG_EXT[cl])
+            _write_project(root, cn, data, g["base"])
+            out["raw"] = {cl: sorted(_norm(v, cn) for v in _reference(root))}
+            _drain(flog)
+        if cl == "javascript" and g.get("js_ts_ok", True) and not any(isinstance(v, dict) and ("javascript" in v or "typescript" in v) for v in g["base"].values()):
             # docs (nesting/magic-numbers "JavaScript Support"): JavaScript files are analysed with the TypeScript parser
             root = d / "ref_js_as_ts"
-            cn = (g["stem"] + "_a.ts", g["stem"] + "_b.ts")
+            cn = _twins(g["stem"], ".ts")
             _write_project(root, cn, data, g["base"])
             out["js_as_ts"] = sorted(_norm(v, cn) for v in _reference(root))
             _drain(flog)
@@ -574,6 +610,11 @@ def build_atab(g, res, agnostic_rules: set[str], tags: Tags):
         r = owner_rule(v[0], rules)
         if r in agnostic_rules:
             tab.setdefault((r, "*"), []).append((v[0], tags.tag(v)))
+    for lang, vs in (res.get("raw") or {}).items():
+        for v in vs:
+            r = owner_rule(v[0], rules)
+            if r in g.get("raw_rules", []):
+                tab.setdefault(("raw:" + r, lang), []).append((v[0], tags.tag(v)))
     return tab
 
 
@@ -645,7 +686,8 @@ def gen_leaf(seed: int, n: int):
         elif mode < 0.85:
             name = r.choice(STEMS + ["", ".", "..", ".hidden", "a."]) + case_variant(r, r.choice(EXT_MAPPED + EXT_UNMAPPED))
         else:
-            name = r.choice(["x.\u212as", "x.P\u0178", "x.t\u017f", "x.\uff50\uff59", "x.\u0420Y", "\u00e9.PY", "x.\u0130s", "\u0130.ts", "na\u00efve.Rs", "x.j\u0053", "\u212a.Go"])
+            name = r.choice(["x.\u212as", "x.P\u0178", "x.t\u017f", "x.\uff50\uff59", "x.\u0420Y", "\u00e9.PY", "x.\u0130s", "\u0130.ts", "na\u00efve.Rs", "x.j\u0053", "\u212a.Go",
+                             "x.\u212a", "x.\u0130", "x.T\u212aS", "x.\u0130\u0130", "y.p\u00e9", "y.\u00e9\u212a", "z.\u212a\u0130X", "w.\u00c4\u00b0"])
         name = name.replace("/", "_").replace("\x00", "_") or "x"
         if name in (".", ".."):
             name = name + "x"
@@ -693,7 +735,7 @@ def _gen_tables():
         from translator import lib as tlib
         tlib._parse_cache.clear()
         rules = tr._rules()
-        return {"cmds": [c for c, _ in tr._cli_filters()], "rules": rules,
+        return {"cmds": [c for c, _ in tr._cli_filters()], "rules": rules, "exempt": tr._name_exemptions(),
                 "agnostic": {r["rid"] for r in rules if r["langs"] is None}, "pkg": {r["rid"]: r["pkg"] for r in rules}}
     except Exception as e:  # noqa: BLE001
         return {"error": f"{type(e).__name__}: {e}"}
@@ -762,6 +804,12 @@ def run(tier: str, seed: int, replay: str | None = None) -> int:
         leafs = gen_leaf(seed, n_leaf)
     rsub = rng_for(seed, PROP, "subprocess")
     for g in groups:
+        shifted = exempt_shift(tables.get("exempt", []), twin_names(g)[0]) if "error" not in tables else []
+        if shifted:
+            g["raw"], g["raw_rules"] = True, shifted
+        # the JS-vs-TS relation only holds for names no name-based exemption speaks about (a.test.ts is exempt, a.test.js is not)
+        g["js_ts_ok"] = not any(_natom(k, n, nm) for _rid, _l, dnf in tables.get("exempt", []) for conj in dnf for k, n in conj
+                                for nm in (_twins(g["stem"], ".ts")[0], _twins(g["stem"], ".js")[0]) if k != "NStarts") if "error" not in tables else False
         own_touched = set(g["touched"])
         g["cmds"] = [c for c in cmds_all if c in CMD_OWNER and CMD_OWNER[c][0] not in own_touched and (not g.get("only_cmd") or c == g["only_cmd"])]
         if g.get("ood"):
@@ -809,14 +857,21 @@ def run(tier: str, seed: int, replay: str | None = None) -> int:
             chk.broken.append(f"Model:evaluation of the dispatch model failed ({str(e)[:400]})")
 
     _t("coq-eval")
+    # ---- census: the only non-ASCII code points whose str.lower() contains an ASCII character are the two the model handles
+    special = [cp for cp in range(128, 0x110000) if not 0xD800 <= cp <= 0xDFFF and any(ord(c) < 128 for c in chr(cp).lower())]
+    if special != [0x130, 0x212A] or "\u0130".lower().encode() != b"i\xcc\x87" or "\u212a".lower() != "k":
+        chk.broken.append(f"Census:str.lower maps other non-ASCII code points to ASCII than the model assumes: {[hex(c) for c in special][:10]}")
+    chk.extra_cov["unicode_lower_census"] = {"code_points_checked": 0x110000 - 128 - 2048, "lowering_to_ascii": [hex(c) for c in special]}
     # ---- leaf level
     for case, impl, bits in zip(leafs, leaf_impl, leaf_bits):
         chk.dist("leaf:" + ("ascii" if all(ord(c) < 128 for c in case["name"]) else "non-ascii"))
         if bits is None:
             continue
         chk.traces_validated += 1
-        ascii_name = all(ord(c) < 128 for c in case["name"])
-        ok = all(bits) if ascii_name else bool(bits[3])
+        # the byte-level model of str.lower is exact when every non-ASCII character is already lower-case or one of the two
+        # code points handled specially (KELVIN SIGN, LATIN CAPITAL I WITH DOT ABOVE); otherwise only the results must agree
+        exact = all(ord(c) < 128 or c in "\u212a\u0130" or c.lower() == c for c in impl["suffix"])
+        ok = all(bits) if exact else bool(bits[0] and bits[2] and bits[3])
         if not ok:
             chk.correspondence_broken({"level": "leaf", "leaf": case, "impl": impl, "bits [suffix, lower, shebang, detect]": bits})
 
@@ -845,10 +900,10 @@ def run(tier: str, seed: int, replay: str | None = None) -> int:
                 chk.violation({"reason": "a JavaScript file is not analysed like the same content under a TypeScript name (documented: JavaScript is analysed with the TypeScript parser)",
                                "only_as_ts": [v for v in res["js_as_ts"] if v not in res["refs"].get("javascript", [])][:5],
                                "only_as_js": [v for v in res["refs"].get("javascript", []) if v not in res["js_as_ts"]][:5],
-                               "group": {k: v for k, v in g.items() if k not in ("cmds", "subprocess_cmds", "only_cmd", "fixed_cmds", "ood")}})
+                               "group": {k: v for k, v in g.items() if k not in ("cmds", "subprocess_cmds", "only_cmd", "fixed_cmds", "ood", "raw", "raw_rules", "js_ts_ok")}})
         if res["ref_failures"]:
             chk.violation({"reason": "a rule failed internally (swallowed exception) in a reference run under a valid configuration",
-                           "failures": res["ref_failures"][:3], "group": {k: v for k, v in g.items() if k not in ("cmds", "subprocess_cmds", "only_cmd", "fixed_cmds", "ood")}})
+                           "failures": res["ref_failures"][:3], "group": {k: v for k, v in g.items() if k not in ("cmds", "subprocess_cmds", "only_cmd", "fixed_cmds", "ood", "raw", "raw_rules", "js_ts_ok")}})
         for cmd in g["cmds"]:
             o = res["cmds"][cmd]
             pkg = CMD_OWNER[cmd][0]
@@ -861,7 +916,7 @@ def run(tier: str, seed: int, replay: str | None = None) -> int:
                      + ("" if g["ext"] == g["ext"].lower() else "(case variant)"))
             chk.dist("outcome:" + next(iter(o)))
             chk.dist("perturbed_sections:" + str(len(g["touched"])))
-            case = {"group": {k: v for k, v in g.items() if k not in ("cmds", "subprocess_cmds", "only_cmd", "fixed_cmds", "ood")}, "cmd": cmd, "file_names": list(names),
+            case = {"group": {k: v for k, v in g.items() if k not in ("cmds", "subprocess_cmds", "only_cmd", "fixed_cmds", "ood", "raw", "raw_rules", "js_ts_ok")}, "cmd": cmd, "file_names": list(names),
                     "text_head": data[:300].decode("utf-8", "replace"), "impl": o, "detected_language": res["detected"], "spec_language": cl}
             if "error" in o:
                 chk.violation({"reason": "command failed outside the modelled outcomes", **case})
@@ -918,6 +973,9 @@ def _explained_in_python(g, res, cmd, o, cl) -> bool:
     """fallback attribution when Coq is unavailable: the two listed defect classes, recognised conservatively"""
     if "aborted" in o:
         return False
+    if twin_names(g)[0] != twin_names(g)[0][: len(twin_names(g)[0]) - len(g["ext"])] + g["ext"].lower() \
+            and CMD_OWNER[cmd][0] in ("method_property", "magic_numbers", "stringly_typed") and any(x in g["stem"] for x in ("test", "spec", "stories")):
+        return True   # listed defect q_name_exemption_ext_case (conservative recognition; only used when Coq is unavailable)
     names = twin_names(g)
     data = bytes.fromhex(g["data_hex"])
     if cl == "other" and py_suffix(names[0]) != "" and res["detected"] == "python" and readable(data):
